@@ -259,8 +259,22 @@ struct Settings
 {
   int cache = 0, lors = 1, nsub = 1;
   bool use_add = false, use_norm = false;
+  int sym = 31; // projector families: the five symmetry switches of the ray-tracing matrix
+  int geom = 0; // projector families: which of the two image geometries the projectors / objective function are set up for
+  long lm_cache = -1; // list-mode family: 'max cache size' (-1: the case's)
+  int tb_state = 0;   // tables family: bit 0 = ring spacing doubled, bit 1 = first and last segment removed
   int act = 0; // scatter: index of the activity image
   bool sc_cache = true;
+  // scatter simulation (indices into the pools of ScWorld)
+  int sc_tmpl = 0;    // template
+  int sc_exam = 0;    // energy window
+  int sc_att = 0;     // attenuation image
+  int sc_down = -1;   // >= 0: activity and attenuation image were replaced by downsample_images_to_scanner_size() while
+                      //       template sc_down was current
+  int sc_sp_kind = 0; // scatter-point image: 0 = copy of attenuation pool image sc_sp_a, 1 = made by
+                      // downsample_density_image_for_scatter_points(explicit arguments coded by sc_sp_a) from the density image
+  int sc_sp_a = 0;
+  int sc_thr = 0; // index into the attenuation thresholds
 };
 
 Settings
@@ -272,6 +286,7 @@ initial_settings(const json& c)
   s.nsub = c["subsets"].get<int>();
   s.use_add = c["use_add"].get<bool>();
   s.use_norm = c["use_norm"].get<bool>();
+  s.sym = c["sym"].get<int>();
   return s;
 }
 
@@ -309,6 +324,8 @@ struct World
   shared_ptr<Scanner> sc;
   shared_ptr<ProjDataInfo> pdi;
   shared_ptr<VoxelsOnCartesianGrid<float>> image, image2;
+  //! a second image geometry (two more columns and rows, same voxel sizes and origin) for "set_up for another image"
+  shared_ptr<VoxelsOnCartesianGrid<float>> imageB, image2B;
   shared_ptr<ProjMatrixByBinUsingRayTracing> matrix;
   shared_ptr<ProjectorByBinPair> pair;
   shared_ptr<ProjData> data, add, mult; // in memory or file-backed
@@ -321,19 +338,19 @@ apply_matrix_settings(ProjMatrixByBinUsingRayTracing& m, const Settings& st)
   m.enable_cache(st.cache != 0);
   m.store_only_basic_bins_in_cache(st.cache == 1);
   m.set_num_tangential_LORs(st.lors);
+  const int sym = st.sym;
+  m.set_do_symmetry_90degrees_min_phi((sym & 1) != 0);
+  m.set_do_symmetry_180degrees_min_phi((sym & 2) != 0);
+  m.set_do_symmetry_swap_segment((sym & 4) != 0);
+  m.set_do_symmetry_swap_s((sym & 8) != 0);
+  m.set_do_symmetry_shift_z((sym & 16) != 0);
 }
 
 shared_ptr<ProjMatrixByBinUsingRayTracing>
-make_matrix(const json& c, const Settings& st)
+make_matrix(const json&, const Settings& st)
 {
   shared_ptr<ProjMatrixByBinUsingRayTracing> m(new ProjMatrixByBinUsingRayTracing());
   apply_matrix_settings(*m, st);
-  const int sym = c["sym"].get<int>();
-  m->set_do_symmetry_90degrees_min_phi((sym & 1) != 0);
-  m->set_do_symmetry_180degrees_min_phi((sym & 2) != 0);
-  m->set_do_symmetry_swap_segment((sym & 4) != 0);
-  m->set_do_symmetry_swap_s((sym & 8) != 0);
-  m->set_do_symmetry_shift_z((sym & 16) != 0);
   return m;
 }
 
@@ -349,6 +366,15 @@ make_world(const json& c, const Settings& st, const std::string& dir)
   vg::fill_random(*w.image, c["dseed"].get<uint64_t>(), 0.5, 2.);
   w.image2.reset(w.image->clone());
   vg::fill_random(*w.image2, c["dseed"].get<uint64_t>() ^ 0x3141592ULL, 0.5, 2.);
+  {
+    json jb = c["image"];
+    jb["nx"] = jb["nx"].get<int>() + 2;
+    jb["ny"] = jb["ny"].get<int>() + 2;
+    w.imageB = vg::make_image(jb, *w.pdi, 7);
+    vg::fill_random(*w.imageB, c["dseed"].get<uint64_t>() ^ 0x2718281ULL, 0.5, 2.);
+    w.image2B.reset(w.imageB->clone());
+    vg::fill_random(*w.image2B, c["dseed"].get<uint64_t>() ^ 0x1618033ULL, 0.5, 2.);
+  }
   w.matrix = make_matrix(c, st);
   w.pair.reset(new ProjectorByBinPairUsingProjMatrixByBin(w.matrix));
   shared_ptr<ExamInfo> exam(new ExamInfo(ImagingModality::PT));
@@ -511,7 +537,17 @@ struct LMWorld
   shared_ptr<c18lm::SyntheticCListModeData> lm;
   shared_ptr<LMObj> obj;
   long accepted = 0;
+  long cache = 0; // what was given to set_cache_max_size
 };
+
+//! 'max cache size' that keeps the stream outside the empty-last-batch precondition (see make_lm)
+long
+lm_cache_size(long cache, long accepted)
+{
+  while (cache > 0 && accepted % cache == 0) // (5 -> 6 is not enough for 60 kept prompts)
+    ++cache;
+  return cache;
+}
 
 //! list-mode objective function on a generated event stream.  Preconditions (LM_distributable_computation:
 //! assert(!record_ptr.empty())): at least one kept prompt, and the number of kept prompts is not a multiple of
@@ -537,10 +573,8 @@ make_lm(const json& c, const World& w, const Settings& st, const std::string& ca
   L.obj->set_use_subset_sensitivities(true);
   L.obj->set_cache_path(cache_dir);
   L.obj->set_recompute_cache(true);
-  long cache = J["cache"].get<long>();
-  if (cache > 0 && L.accepted % cache == 0)
-    ++cache;
-  L.obj->set_cache_max_size(static_cast<unsigned long>(cache));
+  L.cache = lm_cache_size(st.lm_cache >= 0 ? st.lm_cache : J["cache"].get<long>(), L.accepted);
+  L.obj->set_cache_max_size(static_cast<unsigned long>(L.cache));
   return L;
 }
 
@@ -552,12 +586,38 @@ make_lm(const json& c, const World& w, const Settings& st, const std::string& ca
 // image, so that set_up may be called repeatedly ("set_up() called twice is currently not supported" only concerns the
 // automatic down-sampling); >= 2 rings (set_up has a debug self check that reads 0 < 0 for a single ring).
 typedef VoxelsOnCartesianGrid<float> Image;
+//
+// What histories (and the "next frame" variant of the fresh-object cases) change on ONE simulation object, always through the
+// public setters and always followed by set_up():
+//  * set_template_proj_data_info(): the SAME template again (next frame / gate), another template of the same scanner
+//    (same number of detectors, other tangential / segment range), a template of ANOTHER scanner (two more detectors
+//    per ring), a template followed by downsample_scanner(rings, dets) with explicit arguments;
+//  * set_exam_info() / set_exam_info_sptr(): same or other energy window;
+//  * set_activity_image_sptr(), set_density_image_sptr(), set_density_image_for_scatter_points_sptr(),
+//    downsample_density_image_for_scatter_points(explicit zooms), downsample_images_to_scanner_size();
+//  * set_attenuation_threshold() BEFORE the scatter points are sampled (the setter is always followed by a setter that
+//    samples them; the other order is outside the property, see the C16 harness, F7);
+//  * set_use_cache().
+// Soundness: the object always has an EXPLICIT scatter-point image when set_up() runs (set_density_image_sptr() drops it,
+// so every such call is followed by one of the two calls that make a new one): the automatic down-sampling inside set_up
+// ("set_up() called twice is currently not supported", and the known C16 findings about DERIVED scatter-point images and
+// derived zoom factors) is never reached.  All pool images and all template-sized images have the same axial extent
+// (check_z_to_middle_consistent) whenever downsample_images_to_scanner_size() is used ("len_match"); every template of the
+// pool has the rings and the ring spacing of the case's scanner.  A step that re-sets the images always re-sets BOTH pool
+// images, so that the state of the object is a function of the Settings and a freshly configured object can be given the
+// same state (the second oracle).
+const float SC_THRESHOLDS[3] = { 0.01F, 0.03F, 0.005F }; // cm^-1; attenuation values are 0 or in [0.02, 0.18]
 struct ScWorld
 {
   shared_ptr<Scanner> sc;
   shared_ptr<ProjDataInfo> pdi;
   shared_ptr<ExamInfo> exam;
-  shared_ptr<Image> act[2], att;
+  shared_ptr<Image> act[2], att[2];
+  // pools
+  shared_ptr<ProjDataInfo> tmpl[4];
+  int tmpl_down_dets[4] = { 0, 0, 0, 0 }; // > 0: set_template_proj_data_info is followed by downsample_scanner(rings, that many)
+  shared_ptr<ExamInfo> exams[2];
+  bool len_match = false;
   shared_ptr<SingleScatterSimulation> sim;
 };
 
@@ -566,7 +626,9 @@ make_sc_image(const json& J, const Scanner& sc, uint64_t seed, double lo, double
 {
   const int nx = J["nx"], nz = J["nz"];
   const double half = sc.get_inner_ring_radius() * J["extent"].get<double>();
-  const double L = sc.get_ring_spacing() * sc.get_num_rings() * J["len"].get<double>();
+  // len_match: the axial extent of VoxelsOnCartesianGrid(template), i.e. 2*rings-1 planes of half a ring spacing
+  const double len = J.value("len_match", false) ? double(sc.get_num_rings() - 1) / sc.get_num_rings() : J["len"].get<double>();
+  const double L = sc.get_ring_spacing() * sc.get_num_rings() * len;
   IndexRange3D range(0, nz - 1, -(nx / 2), -(nx / 2) + nx - 1, -(nx / 2), -(nx / 2) + nx - 1);
   shared_ptr<Image> im(new Image(range, CartesianCoordinate3D<float>(0, 0, 0),
                                  CartesianCoordinate3D<float>(float(L / (nz - 1)), float(2 * half / nx), float(2 * half / nx))));
@@ -580,6 +642,57 @@ make_sc_image(const json& J, const Scanner& sc, uint64_t seed, double lo, double
   return im;
 }
 
+//! set_template_proj_data_info (+ downsample_scanner with explicit arguments) for pool template k
+void
+sc_apply_template(const ScWorld& S, SingleScatterSimulation& sim, int k)
+{
+  sim.set_template_proj_data_info(*S.tmpl[k]);
+  if (S.tmpl_down_dets[k] > 0)
+    if (sim.downsample_scanner(S.tmpl[k]->get_scanner_ptr()->get_num_rings(), S.tmpl_down_dets[k]) != Succeeded::yes)
+      throw std::runtime_error("ScatterSimulation::downsample_scanner returned Succeeded::no");
+}
+
+//! gives the object the explicit scatter-point image that the settings describe (samples the scatter points)
+void
+sc_apply_scatter_point_image(const ScWorld& S, SingleScatterSimulation& sim, const Settings& st)
+{
+  if (st.sc_sp_kind == 0)
+    {
+      sim.set_density_image_for_scatter_points_sptr(shared_ptr<const DiscretisedDensity<3, float>>(S.att[st.sc_sp_a % 2]->clone()));
+      return;
+    }
+  // downsample_density_image_for_scatter_points(): "error() if zoom_z>0 and |(new_z-1)/(old_z-1) - zoom_z| > .1"; new_z, old_z >= 2
+  // (pool images have 2..4 planes, template-sized images 2*rings-1 >= 3); at most 7x7 columns (cost)
+  const Image& att = dynamic_cast<const Image&>(sim.get_attenuation_image());
+  const int old_z = att.get_z_size(), old_x = att.get_x_size();
+  if (old_z < 2)
+    throw std::logic_error("harness: attenuation image with one plane");
+  const int new_z = 2 + (st.sc_sp_a / 3) % (std::min(old_z, 4) - 1);
+  const float zoom_z = float(new_z - 1) / float(old_z - 1);
+  static const float zxy[3] = { 0.5F, 0.75F, 1.F };
+  const float zoom_xy = zxy[st.sc_sp_a % 3] * std::min(1.F, 6.F / float(old_x));
+  sim.downsample_density_image_for_scatter_points(zoom_xy, zoom_z, -1, new_z);
+}
+
+//! configures a simulation object such that it is in the state that the settings describe
+void
+sc_configure(const ScWorld& S, SingleScatterSimulation& sim, const Settings& st)
+{
+  sim.set_attenuation_threshold(SC_THRESHOLDS[st.sc_thr % 3]);
+  sim.set_randomly_place_scatter_points(false);
+  sim.set_use_cache(st.sc_cache);
+  sim.set_exam_info(*S.exams[st.sc_exam % 2]);
+  sc_apply_template(S, sim, st.sc_down >= 0 ? st.sc_down : st.sc_tmpl);
+  sim.set_activity_image_sptr(S.act[st.act % 2]);
+  sim.set_density_image_sptr(S.att[st.sc_att % 2]);
+  if (st.sc_down >= 0)
+    if (sim.downsample_images_to_scanner_size() != Succeeded::yes)
+      throw std::runtime_error("ScatterSimulation::downsample_images_to_scanner_size returned Succeeded::no");
+  sc_apply_scatter_point_image(S, sim, st);
+  if (st.sc_down >= 0 && st.sc_down != st.sc_tmpl)
+    sc_apply_template(S, sim, st.sc_tmpl);
+}
+
 ScWorld
 make_scatter(const json& c, const Settings& st)
 {
@@ -587,22 +700,60 @@ make_scatter(const json& c, const Settings& st)
   const json& J = c["scat"];
   S.sc = vg::make_scanner(c["scanner"]);
   S.pdi = vg::make_pdi(S.sc, c["pdi"]);
+  S.len_match = J.value("len_match", false);
+  const int ndet = S.sc->get_num_detectors_per_ring(), rings = S.sc->get_num_rings();
+  const uint64_t seed = c["dseed"].get<uint64_t>();
+  // ---- templates: [0] the case's, [1] same scanner (same detectors), other tangential and / or segment range,
+  //      [2] ANOTHER scanner: two more (or, at the upper end, two fewer) detectors per ring, one crystal per block,
+  //      [3] template 0 followed by downsample_scanner(rings, new_dets): "new max tangential bins =
+  //          ceil(tang*new_dets/old_dets)+1", must stay <= new_dets-1 (distinct detectors; as in the C16 harness)
+  S.tmpl[0] = S.pdi;
+  {
+    json p = c["pdi"];
+    const int tang = p["tang"].get<int>(), max_delta = p["max_delta"].get<int>();
+    SplitMix g(seed ^ 0x7e3a1ULL);
+    int tang1 = 2 + int(g.range(0, ndet - 3));
+    if (tang1 == tang)
+      tang1 = tang > 2 ? tang - 1 : tang + 1;
+    p["tang"] = tang1;
+    if (g.range(0, 1) == 1)
+      p["max_delta"] = max_delta > 0 ? max_delta - 1 : rings - 1;
+    S.tmpl[1] = vg::make_pdi(S.sc, p);
+    json sj = c["scanner"];
+    const int ndet2 = ndet >= 14 ? ndet - 2 : ndet + 2;
+    sj["ndet"] = ndet2;
+    sj["tr_cryst_per_block"] = 1;
+    sj["tr_blocks_per_bucket"] = 1;
+    sj["max_tang"] = ndet2 - 1;
+    json p2 = c["pdi"];
+    p2["views"] = ndet2 / 2;
+    p2["tang"] = std::min(tang, ndet2 - 1);
+    S.tmpl[2] = vg::make_pdi(vg::make_scanner(sj), p2);
+    S.tmpl[3] = S.pdi;
+    std::vector<int> ok;
+    for (int nd = 4; nd <= ndet; nd += 2)
+      if (int(std::ceil(double(tang) * nd / ndet)) + 1 <= nd - 1)
+        ok.push_back(nd);
+    if (!ok.empty())
+      S.tmpl_down_dets[3] = ok[std::size_t(g.range(0, long(ok.size()) - 1))];
+    else
+      S.tmpl[3] = S.tmpl[1];
+  }
+  // ---- energy windows
   S.exam.reset(new ExamInfo(ImagingModality::PT));
   S.exam->set_low_energy_thres(J["low"].get<float>());
   S.exam->set_high_energy_thres(J["high"].get<float>());
-  const uint64_t seed = c["dseed"].get<uint64_t>();
+  S.exams[0] = S.exam;
+  S.exams[1].reset(new ExamInfo(ImagingModality::PT));
+  S.exams[1]->set_low_energy_thres(J["low"].get<float>() > 400.F ? 375.F : 440.F);
+  S.exams[1]->set_high_energy_thres(J["high"].get<float>() > 620.F ? 580.F : 680.F);
+  // ---- images
   S.act[0] = make_sc_image(J, *S.sc, seed ^ 0x11, 0.1, 1., J["p_zero"].get<double>());
   S.act[1] = make_sc_image(J, *S.sc, seed ^ 0x22, 0.1, 1., J["p_zero"].get<double>());
-  S.att = make_sc_image(J, *S.sc, seed ^ 0x33, 0.02, 0.18, 0.15); // cm^-1, threshold 0.01
+  S.att[0] = make_sc_image(J, *S.sc, seed ^ 0x33, 0.02, 0.18, 0.15); // cm^-1
+  S.att[1] = make_sc_image(J, *S.sc, seed ^ 0x44, 0.02, 0.18, 0.25);
   S.sim.reset(new SingleScatterSimulation);
-  S.sim->set_attenuation_threshold(0.01F);
-  S.sim->set_randomly_place_scatter_points(false);
-  S.sim->set_use_cache(st.sc_cache);
-  S.sim->set_exam_info(*S.exam);
-  S.sim->set_template_proj_data_info(*S.pdi);
-  S.sim->set_activity_image_sptr(S.act[st.act]);
-  S.sim->set_density_image_sptr(S.att);
-  S.sim->set_density_image_for_scatter_points_sptr(shared_ptr<const DiscretisedDensity<3, float>>(S.att->clone()));
+  sc_configure(S, *S.sim, st);
   return S;
 }
 
@@ -623,6 +774,11 @@ workload_family(int workload)
   return workload <= 1 ? 0 : workload <= 5 ? 1 : workload == 6 ? 2 : workload == 7 ? 3 : 4;
 }
 
+//! workload 8 with fresh objects: set_up + process_data, then for every entry [code, a, b] of c["scat"]["frames"] (the next
+//! frame / gate: the same template again, another energy window, another activity image ...) that step and process_data again
+//! on the SAME object; all results are compared with the single-thread run (defined behind FamScatter)
+void run_scatter_frames(const json& c, std::vector<double>& out);
+
 // ---- (a) fresh objects in every repetition ------------------------------------------------------------------------
 //! run the workload once with fresh objects; returns the flattened result
 std::vector<double>
@@ -631,10 +787,7 @@ run_workload(const json& c, int threads, bool perturb, uint64_t pseed, const std
   const int workload = c["workload"].get<int>();
   const Settings st = initial_settings(c);
   World w;
-  ScWorld S;
-  if (workload == 8)
-    S = make_scatter(c, st);
-  else
+  if (workload != 8)
     w = make_world(c, st, dir);
   threads_via_stir(threads);
   if (perturb)
@@ -690,14 +843,7 @@ run_workload(const json& c, int threads, bool perturb, uint64_t pseed, const std
           append(out, L.obj->get_subset_sensitivity(subset));
         }
       else if (workload == 8)
-        {
-          if (S.sim->set_up() != Succeeded::yes)
-            {
-              perturb_off();
-              throw std::runtime_error("scatter simulation set_up failed");
-            }
-          run_scatter(*S.sim, out);
-        }
+        run_scatter_frames(c, out); // set_up, process_data and the generated "next frame" steps on the same object
       else
         {
           shared_ptr<PDObj> objp = make_pd_objective(w, st);
@@ -811,6 +957,19 @@ struct Family
   virtual const char* name(int code) const = 0;
   virtual void exec(int code, int a, int b, std::vector<double>& out) = 0;
   virtual Settings settings() const { return Settings(); }
+  //! the operation that produces the result of a step without changing any setting (what a fresh object is asked to do)
+  virtual int result_code(int code) const { return code; }
+  //! raw third entry of a generated step -> operation: numbers below num_codes() are the operation itself (fixed cases, saved
+  //! replays, shrinking towards small numbers), larger ones are spread over the family's weight table such that about half of
+  //! the steps produce a result that is compared
+  virtual const std::vector<int>& weights() const = 0;
+  int decode(long raw) const
+  {
+    if (raw < num_codes())
+      return int(raw);
+    const std::vector<int>& w = weights();
+    return w[std::size_t(raw) % w.size()];
+  }
 };
 
 std::vector<int>
@@ -836,10 +995,23 @@ struct FamProjectors : Family
     SET_UP,
     SET_CACHE,
     SET_LORS,
+    SET_SYM,  // other (or the same) symmetry switches + set_up: the matrix rebuilds its symmetries and drops the cache
+    SET_GEOM, // set_up for the other (or the same) image geometry: matrix cache, cache locks and the per-thread images
+              // of the back projector (created lazily, one per thread that did some work) live through it
     N
   };
   World w;
   Settings st;
+  const VoxelsOnCartesianGrid<float>& im(int which) const
+  {
+    return st.geom ? (which ? *w.image2B : *w.imageB) : (which ? *w.image2 : *w.image);
+  }
+  void set_up_pair() { w.pair->set_up(w.pdi, st.geom ? w.imageB : w.image); }
+  const std::vector<int>& weights() const override
+  {
+    static const std::vector<int> w{ FWD, BACK, FWD2, BACK2, FWD, BACK, BACK, FWD, CLEAR_CACHE, SET_UP, SET_CACHE, SET_LORS, SET_SYM, SET_GEOM, SET_GEOM, CLEAR_CACHE };
+    return w;
+  }
   FamProjectors(const json& c, const std::string& dir, const Settings* o)
       : st(o ? *o : initial_settings(c))
   {
@@ -865,7 +1037,8 @@ struct FamProjectors : Family
   }
   const char* name(int code) const override
   {
-    static const char* n[] = { "forward_project", "back_project", "forward_project", "back_project", "clear_cache", "set_up", "cache mode + set_up", "num_tangential_LORs + set_up" };
+    static const char* n[] = { "forward_project", "back_project", "forward_project", "back_project", "clear_cache", "set_up", "cache mode + set_up", "num_tangential_LORs + set_up",
+                               "symmetry switches + set_up", "set_up for the other image geometry" };
     return n[code];
   }
   void exec(int code, int a, int b, std::vector<double>& out) override
@@ -878,14 +1051,14 @@ struct FamProjectors : Family
       case FWD2:
         {
           ProjDataInMemory res(w.data->get_exam_info_sptr(), w.pdi);
-          w.pair->get_forward_projector_sptr()->forward_project(res, a % 2 ? *w.image2 : *w.image, subset, nsub);
+          w.pair->get_forward_projector_sptr()->forward_project(res, im(a % 2), subset, nsub);
           append(out, res);
           break;
         }
       case BACK:
       case BACK2:
         {
-          shared_ptr<target_type> res(w.image->get_empty_copy());
+          shared_ptr<target_type> res(im(0).get_empty_copy());
           w.pair->get_back_projector_sptr()->back_project(*res, *w.data, subset, nsub);
           append(out, *res);
           break;
@@ -896,15 +1069,25 @@ struct FamProjectors : Family
       case SET_CACHE:
         st.cache = a % 3;
         apply_matrix_settings(*w.matrix, st);
-        w.pair->set_up(w.pdi, w.image);
+        set_up_pair();
         break;
       case SET_LORS:
         st.lors = 1 + a % 2;
         apply_matrix_settings(*w.matrix, st);
-        w.pair->set_up(w.pdi, w.image);
+        set_up_pair();
+        break;
+      case SET_SYM:
+        // every combination of the five switches is in the domain of the fresh-object cases as well (gen: "sym")
+        st.sym = a % 4 == 0 ? st.sym : (a % 4 == 1 ? 31 : (a / 4) % 32);
+        apply_matrix_settings(*w.matrix, st);
+        set_up_pair();
+        break;
+      case SET_GEOM:
+        st.geom = a % 2;
+        set_up_pair();
         break;
       default:
-        w.pair->set_up(w.pdi, w.image);
+        set_up_pair();
       }
   }
 };
@@ -927,21 +1110,36 @@ struct FamObjective : Family
     PAIR_BACK,
     GRAD2,
     HESS2,
+    SET_DATA, // the SAME data / projector pair given again (set_proj_data_sptr, set_projector_pair_sptr) + set_up
+    SET_ADD,  // additive term on / off / the same again + set_up
+    SET_NORM, // normalisation on / off / the same again + set_up
+    SET_GEOM, // set_up for the other (or the same) target geometry
+    SET_SYM,  // other (or the same) symmetry switches of the matrix + set_up
     N
   };
   World w;
   Settings st;
   shared_ptr<PDObj> obj;
-  shared_ptr<target_type> target, target2, dir_im;
+  shared_ptr<target_type> targets[2], targets2[2], dir_ims[2];
+  const std::vector<int>& weights() const override
+  {
+    static const std::vector<int> w{ VALUE, GRAD, GRADPLUS, SENS, HESS, HESS_APPROX, PAIR_BACK, GRAD2, HESS2, GRAD, HESS, SET_UP, CLEAR_CACHE, SET_NSUB, SET_DATA, SET_ADD, SET_NORM, SET_GEOM, SET_SYM, SET_UP, CLEAR_CACHE, SET_GEOM };
+    return w;
+  }
   FamObjective(const json& c, const std::string& dir, const Settings* o)
       : st(o ? *o : initial_settings(c))
   {
     w = make_world(c, st, dir);
     obj = make_pd_objective(w, st);
-    target.reset(w.image->clone());
-    target2.reset(w.image2->clone());
-    dir_im.reset(w.image->clone());
-    vg::fill_random(*dir_im, c["dseed"].get<uint64_t>() ^ 0x77, 0.1, 1.);
+    targets[0].reset(w.image->clone());
+    targets2[0].reset(w.image2->clone());
+    targets[1].reset(w.imageB->clone());
+    targets2[1].reset(w.image2B->clone());
+    for (int g = 0; g < 2; ++g)
+      {
+        dir_ims[g].reset(targets[g]->clone());
+        vg::fill_random(*dir_ims[g], c["dseed"].get<uint64_t>() ^ 0x77 ^ uint64_t(g * 0x5151), 0.1, 1.);
+      }
   }
   int num_codes() const override { return N; }
   int setup_code() const override { return SET_UP; }
@@ -973,18 +1171,22 @@ struct FamObjective : Family
     static const char* n[] = { "compute_objective_function", "compute_sub_gradient", "compute_sub_gradient_without_penalty_plus_sensitivity",
                                "get_subset_sensitivity", "accumulate_sub_Hessian_times_input", "add_multiplication_with_approximate_sub_Hessian",
                                "set_up", "clear_cache", "set_num_subsets + set_up", "back_project with the objective function's projector pair",
-                               "compute_sub_gradient", "accumulate_sub_Hessian_times_input" };
+                               "compute_sub_gradient", "accumulate_sub_Hessian_times_input",
+                               "set_proj_data_sptr / set_projector_pair_sptr (the same again) + set_up", "set_additive_proj_data_sptr + set_up",
+                               "set_normalisation_sptr + set_up", "set_up for the other target geometry", "symmetry switches + set_up" };
     return n[code];
   }
   void do_set_up()
   {
-    if (obj->set_up(target) != Succeeded::yes)
+    if (obj->set_up(targets[st.geom]) != Succeeded::yes)
       throw std::runtime_error("objective function set_up failed");
   }
   void exec(int code, int a, int b, std::vector<double>& out) override
   {
     const int subset = b % obj->get_num_subsets();
-    const target_type& cur = a % 2 ? *target2 : *target;
+    const shared_ptr<target_type>& target = targets[st.geom];
+    const target_type& cur = a % 2 ? *targets2[st.geom] : *target;
+    const target_type& dir_im = *dir_ims[st.geom];
     switch (code)
       {
       case VALUE:
@@ -1012,14 +1214,14 @@ struct FamObjective : Family
       case HESS2:
         {
           shared_ptr<target_type> r(target->get_empty_copy());
-          obj->accumulate_sub_Hessian_times_input(*r, cur, *dir_im, subset);
+          obj->accumulate_sub_Hessian_times_input(*r, cur, dir_im, subset);
           append(out, *r);
           break;
         }
       case HESS_APPROX:
         {
           shared_ptr<target_type> r(target->get_empty_copy());
-          obj->add_multiplication_with_approximate_sub_Hessian(*r, *dir_im, subset);
+          obj->add_multiplication_with_approximate_sub_Hessian(*r, dir_im, subset);
           append(out, *r);
           break;
         }
@@ -1041,6 +1243,33 @@ struct FamObjective : Family
           append(out, *r);
           break;
         }
+      case SET_DATA:
+        if (a % 2)
+          obj->set_proj_data_sptr(w.data);
+        else
+          obj->set_projector_pair_sptr(w.pair);
+        do_set_up();
+        break;
+      case SET_ADD:
+        st.use_add = a % 3 == 0 ? st.use_add : a % 3 == 1;
+        obj->set_additive_proj_data_sptr(st.use_add ? shared_ptr<ExamData>(w.add) : shared_ptr<ExamData>());
+        do_set_up();
+        break;
+      case SET_NORM:
+        st.use_norm = a % 3 == 0 ? st.use_norm : a % 3 == 1;
+        obj->set_normalisation_sptr(st.use_norm ? shared_ptr<BinNormalisation>(new BinNormalisationFromProjData(w.mult))
+                                                : shared_ptr<BinNormalisation>(new TrivialBinNormalisation));
+        do_set_up();
+        break;
+      case SET_GEOM:
+        st.geom = a % 2;
+        do_set_up();
+        break;
+      case SET_SYM:
+        st.sym = a % 4 == 0 ? st.sym : (a % 4 == 1 ? 31 : (a / 4) % 32);
+        apply_matrix_settings(*w.matrix, st);
+        do_set_up();
+        break;
       default:
         do_set_up();
       }
@@ -1050,45 +1279,113 @@ struct FamObjective : Family
 // -- ProjDataInfo with its lazily built tables
 struct FamTables : Family
 {
+  Settings settings() const override { return st; }
   enum
   {
     QUERY = 0,
     REARM,
     QUERY_TABLES_FIRST,
+    REARM_SAME_VALUE, // one of the other setters documented to re-arm the tables, called with the value it already has
+    COPY,             // the look-ups continue on a copy (clone) of the used object (its tables may be built or re-armed)
+    TOGGLE_SPACING,   // set_ring_spacing(twice / once the scanner's): the tables have to be rebuilt with other contents
+    REDUCE_SEGMENTS,  // reduce_segment_range(min+1, max-1) (once, if there are >= 3 segments)
     N
   };
+  Settings st;
   shared_ptr<Scanner> sc;
   shared_ptr<ProjDataInfo> pdi;
   const ProjDataInfoCylindricalNoArcCorr* p;
-  FamTables(const json& c)
+  float spacing0;
+  void adopt(const shared_ptr<ProjDataInfo>& n)
   {
-    sc = vg::make_scanner(c["scanner"]);
-    pdi = vg::make_pdi(sc, c["pdi"]);
+    pdi = n;
     p = dynamic_cast<const ProjDataInfoCylindricalNoArcCorr*>(pdi.get());
     if (!p)
       throw std::runtime_error("workload 6 needs cylindrical no-arc-correction data");
   }
+  ProjDataInfoCylindrical& cyl() { return dynamic_cast<ProjDataInfoCylindrical&>(*pdi); }
+  const std::vector<int>& weights() const override
+  {
+    static const std::vector<int> w{ QUERY, QUERY_TABLES_FIRST, QUERY, QUERY_TABLES_FIRST, QUERY, QUERY_TABLES_FIRST, REARM, REARM, REARM_SAME_VALUE, REARM_SAME_VALUE, COPY, TOGGLE_SPACING, REDUCE_SEGMENTS };
+    return w;
+  }
+  void apply_spacing() { cyl().set_ring_spacing((st.tb_state & 1) ? 2 * spacing0 : spacing0); }
+  bool reduce()
+  {
+    if (pdi->get_num_segments() < 3)
+      return false;
+    pdi->reduce_segment_range(pdi->get_min_segment_num() + 1, pdi->get_max_segment_num() - 1);
+    return true;
+  }
+  FamTables(const json& c, const Settings* o)
+      : st(o ? *o : Settings())
+  {
+    sc = vg::make_scanner(c["scanner"]);
+    adopt(vg::make_pdi(sc, c["pdi"]));
+    spacing0 = cyl().get_ring_spacing();
+    if (st.tb_state & 2)
+      reduce();
+    if (st.tb_state & 1)
+      apply_spacing();
+  }
   int num_codes() const override { return N; }
   int setup_code() const override { return REARM; }
-  int flags(int code) const override { return code == REARM ? 0 : F_RESULT; }
+  int flags(int code) const override { return (code == QUERY || code == QUERY_TABLES_FIRST) ? F_RESULT : 0; }
   const char* name(int code) const override
   {
-    static const char* n[] = { "table look-ups", "set_ring_spacing (re-arms the lazy tables)", "table look-ups (coordinates first)" };
+    static const char* n[] = { "table look-ups", "set_ring_spacing (re-arms the lazy tables)", "table look-ups (coordinates first)",
+                               "set_min/max_ring_difference / set_min/max_axial_pos_num with the current value (re-arms the lazy tables)",
+                               "look-ups continue on a clone", "set_ring_spacing(other value)", "reduce_segment_range" };
     return n[code];
   }
-  void exec(int code, int, int, std::vector<double>& out) override
+  void exec(int code, int a, int b, std::vector<double>& out) override
   {
-    if (code == REARM)
-      { // every geometry setter re-arms the lazy construction of the ring-difference tables (ProjDataInfoCylindrical.h)
-        ProjDataInfoCylindrical* pc = dynamic_cast<ProjDataInfoCylindrical*>(pdi.get());
-        pc->set_ring_spacing(pc->get_ring_spacing());
+    switch (code)
+      {
+      case REARM:
+        // every geometry setter re-arms the lazy construction of the ring-difference tables (ProjDataInfoCylindrical.h)
+        apply_spacing();
+        break;
+      case REARM_SAME_VALUE:
+        {
+          const int seg = pdi->get_min_segment_num() + b % pdi->get_num_segments();
+          switch (a % 4)
+            {
+            case 0:
+              cyl().set_min_ring_difference(cyl().get_min_ring_difference(seg), seg);
+              break;
+            case 1:
+              cyl().set_max_ring_difference(cyl().get_max_ring_difference(seg), seg);
+              break;
+            case 2:
+              pdi->set_min_axial_pos_num(pdi->get_min_axial_pos_num(seg), seg);
+              break;
+            default:
+              pdi->set_max_axial_pos_num(pdi->get_max_axial_pos_num(seg), seg);
+            }
+          break;
+        }
+      case COPY:
+        adopt(shared_ptr<ProjDataInfo>(pdi->clone()));
+        break;
+      case TOGGLE_SPACING:
+        st.tb_state ^= 1;
+        apply_spacing();
+        break;
+      case REDUCE_SEGMENTS:
+        if (!(st.tb_state & 2) && reduce())
+          st.tb_state |= 2;
+        break;
+      default:
+        query_tables(p, *sc, code == QUERY_TABLES_FIRST, out);
       }
-    else
-      query_tables(p, *sc, code == QUERY_TABLES_FIRST, out);
   }
 };
 
 // -- list-mode objective function
+// The events (and their additive terms, looked up in a parallel loop over segments) are cached in batches of 'max cache
+// size' events, in memory and in files my_CACHE<k>.bin under the cache path; set_up() with 'recompute cache' writes the
+// files, without it the files found on disk are used as they are ("We will be ignoring any time frame definitions...").
 struct FamListMode : Family
 {
   Settings settings() const override { return st; }
@@ -1102,17 +1399,33 @@ struct FamListMode : Family
     SET_UP,
     CLEAR_CACHE,
     GRADPLUS2,
+    SET_NSUB,       // set_num_subsets + set_up
+    SET_CACHE_SIZE, // set_cache_max_size(other or same) + set_up: other batches, cache files rewritten
+    REUSE_CACHE,    // set_recompute_cache(false) + set_up: the cache files written by the previous set_up are used
+    SET_ADD,        // set_additive_proj_data_sptr (again, or for the first time) + set_up
     N
   };
   World w;
   Settings st;
   LMWorld L;
   shared_ptr<target_type> target, target2, dir_im;
-  FamListMode(const json& c, const std::string& dir, const std::string& cache_dir, const Settings* o)
-      : st(o ? *o : initial_settings(c))
+  // model of the cache files: STIR's own 'cache_size' member (0 becomes 1000000 in the first set_up without caching),
+  // the number of files the last set_up wrote and the largest number any set_up wrote (files are never deleted)
+  long obj_cache_size = 0, last_files = 0, max_files = 0;
+  const std::vector<int>& weights() const override
+  {
+    static const std::vector<int> w{ GRADPLUS, GRAD, VALUE, HESS, SENS, GRADPLUS2, GRADPLUS, HESS, SET_UP, CLEAR_CACHE, SET_NSUB, SET_CACHE_SIZE, REUSE_CACHE, REUSE_CACHE, SET_ADD, SET_CACHE_SIZE };
+    return w;
+  }
+  std::string cache_dir;
+  FamListMode(const json& c, const std::string& dir, const std::string& cache_dir_v, const Settings* o)
+      : st(o ? *o : initial_settings(c)),
+        cache_dir(cache_dir_v)
   {
     w = make_world(c, st, dir);
     L = make_lm(c, w, st, cache_dir);
+    st.lm_cache = L.cache;
+    obj_cache_size = L.cache;
     target.reset(w.image->clone());
     target2.reset(w.image2->clone());
     dir_im.reset(w.image->clone());
@@ -1124,14 +1437,58 @@ struct FamListMode : Family
   {
     // set_up: the sensitivity back projector is set up and used in the same call, with the same number of threads;
     // the gradient / value / Hessian use local per-thread images sized by omp_get_max_threads() at the call
-    return code == SET_UP ? (F_SETUP | F_BP) : code == CLEAR_CACHE ? 0 : F_RESULT;
+    switch (code)
+      {
+      case CLEAR_CACHE:
+        return 0;
+      case SET_UP:
+      case SET_NSUB:
+      case SET_CACHE_SIZE:
+      case REUSE_CACHE:
+      case SET_ADD:
+        return F_SETUP | F_BP;
+      default:
+        return F_RESULT;
+      }
   }
   const char* name(int code) const override
   {
     static const char* n[] = { "LM compute_sub_gradient_without_penalty_plus_sensitivity", "LM compute_sub_gradient_without_penalty",
                                "LM compute_objective_function_without_penalty", "LM accumulate_sub_Hessian_times_input_without_penalty",
-                               "LM get_subset_sensitivity", "LM set_up", "clear_cache", "LM compute_sub_gradient_without_penalty_plus_sensitivity" };
+                               "LM get_subset_sensitivity", "LM set_up", "clear_cache", "LM compute_sub_gradient_without_penalty_plus_sensitivity",
+                               "LM set_num_subsets + set_up", "LM set_cache_max_size + set_up", "LM set_up re-using the cache files on disk",
+                               "LM set_additive_proj_data_sptr + set_up" };
     return n[code];
+  }
+  void do_set_up(bool recompute = true)
+  {
+    if (!recompute)
+      L.obj->set_recompute_cache(false);
+    const Succeeded ok = L.obj->set_up(target);
+    L.obj->set_recompute_cache(true);
+    if (ok != Succeeded::yes)
+      throw std::runtime_error("list-mode objective function set_up failed");
+    if (!recompute)
+      stats().count("list-mode set_up re-using the cache files on disk");
+    if (recompute)
+      {
+        if (obj_cache_size > 0)
+          { // set_up_before_sensitivity: "if (this->cache_size > 0 ...) cache_listmode_file()"; accepted % cache_size != 0
+            last_files = L.accepted / obj_cache_size + 1;
+            max_files = std::max(max_files, last_files);
+          }
+        else
+          { // "else { this->cache_lm_file = false; this->cache_size = 1000000; }"
+            obj_cache_size = 1000000;
+            last_files = 0;
+          }
+        // the model is checked against the directory (a wrong model would make REUSE_CACHE read left-over files)
+        long on_disk = 0;
+        while (std::filesystem::exists(cat(cache_dir, "/my_CACHE", on_disk, ".bin")))
+          ++on_disk;
+        if (on_disk != max_files)
+          throw std::logic_error(cat("harness: model of the list-mode cache files is wrong: ", on_disk, " files on disk, expected ", max_files));
+      }
   }
   void exec(int code, int a, int b, std::vector<double>& out) override
   {
@@ -1162,14 +1519,45 @@ struct FamListMode : Family
       case CLEAR_CACHE:
         w.matrix->clear_cache();
         break;
+      case SET_NSUB:
+        {
+          const std::vector<int> d = vg::divisors(w.pdi->get_num_views());
+          st.nsub = d[std::size_t(a) % d.size()];
+          L.obj->set_num_subsets(st.nsub);
+          do_set_up();
+          break;
+        }
+      case SET_CACHE_SIZE:
+        {
+          static const long sizes[6] = { 0, 5, 17, 40, 120, 250 };
+          st.lm_cache = a % 7 == 6 ? st.lm_cache : lm_cache_size(sizes[a % 7], L.accepted);
+          L.obj->set_cache_max_size(static_cast<unsigned long>(st.lm_cache));
+          obj_cache_size = st.lm_cache;
+          do_set_up();
+          break;
+        }
+      case REUSE_CACHE:
+        // only when the files on disk are exactly those of the last set_up (no file with a higher number left over from a
+        // set_up with smaller batches: the class counts the files it finds) and nothing was changed since; else recompute
+        // (every setter step of this family ends with a recomputing set_up, so the files always describe the current settings)
+        do_set_up(!(last_files > 0 && last_files == max_files));
+        break;
+      case SET_ADD:
+        st.use_add = true; // (cannot be unset: the class has no way to clear 'has_add')
+        L.obj->set_additive_proj_data_sptr(w.add);
+        do_set_up();
+        break;
       default:
-        if (L.obj->set_up(target) != Succeeded::yes)
-          throw std::runtime_error("list-mode objective function set_up failed");
+        do_set_up();
       }
   }
 };
 
-// -- scatter simulation with its two caches
+// -- scatter simulation with its two caches (and the detector numbering they are indexed with)
+// The caches are indexed [scatter point][detector number]; detector numbers are handed out in order of FIRST USE inside the
+// parallel loop over bins (find_in_detection_points_vector), i.e. in thread-arrival order, and the list is emptied by
+// set_template_proj_data_info().  Every setter that keeps or drops a cache, followed by set_up and process_data at another
+// thread count, is therefore part of the alphabet: a cache that survives a renumbering is wrong with >= 2 threads only.
 struct FamScatter : Family
 {
   Settings settings() const override { return st; }
@@ -1180,6 +1568,14 @@ struct FamScatter : Family
     TOGGLE_CACHE,
     SET_ACT,
     PROCESS2,
+    TMPL_AGAIN,
+    TMPL_OTHER,
+    SET_EXAM,
+    SET_ATT,
+    SET_SP,
+    DOWNSAMPLE_IMAGES,
+    SET_THR,
+    PROCESS3,
     N
   };
   Settings st;
@@ -1191,10 +1587,32 @@ struct FamScatter : Family
   }
   int num_codes() const override { return N; }
   int setup_code() const override { return SET_UP; }
-  int flags(int code) const override { return (code == PROCESS || code == PROCESS2) ? F_RESULT : F_SETUP; }
-  const char* name(int code) const override
+  int flags(int code) const override { return (code == PROCESS || code == PROCESS2 || code == PROCESS3) ? F_RESULT : F_SETUP; }
+  int result_code(int) const override { return PROCESS; }
+  //! three of four setter steps are directly followed by process_data (at the same thread count), the others only by set_up
+  //! (so that several setters can come between two simulations)
+  static bool with_process(int a, int b) { return (a + b) % 4 != 0; }
+  const std::vector<int>& weights() const override
   {
-    static const char* n[] = { "scatter process_data", "scatter set_up", "scatter set_use_cache + set_up", "scatter set_activity_image_sptr + set_up", "scatter process_data" };
+    static const std::vector<int> w{ PROCESS, PROCESS2, PROCESS3, SET_UP, TOGGLE_CACHE, SET_ACT, SET_ACT, TMPL_AGAIN, TMPL_AGAIN, TMPL_AGAIN, TMPL_OTHER, TMPL_OTHER, SET_EXAM, SET_EXAM, SET_ATT, SET_SP, DOWNSAMPLE_IMAGES, SET_THR };
+    return w;
+  }
+  const char* name(int code) const override { return step_name(code); }
+  static const char* step_name(int code)
+  {
+    static const char* n[] = { "scatter process_data",
+                               "scatter set_up",
+                               "scatter set_use_cache + set_up",
+                               "scatter set_activity_image_sptr + set_up",
+                               "scatter process_data",
+                               "scatter set_template_proj_data_info(the same template again) + set_up",
+                               "scatter set_template_proj_data_info(template of the pool) + set_up",
+                               "scatter set_exam_info + set_up",
+                               "scatter set_density_image_sptr + scatter-point image + set_up",
+                               "scatter new scatter-point image (set_density_image_for_scatter_points_sptr / downsample_density_image_for_scatter_points) + set_up",
+                               "scatter downsample_images_to_scanner_size + set_up",
+                               "scatter set_attenuation_threshold + scatter-point image + set_up",
+                               "scatter process_data" };
     return n[code];
   }
   void do_set_up()
@@ -1202,13 +1620,28 @@ struct FamScatter : Family
     if (S.sim->set_up() != Succeeded::yes)
       throw std::runtime_error("scatter simulation set_up failed");
   }
-  void exec(int code, int a, int, std::vector<double>& out) override
+  //! both pool images again (after downsample_images_to_scanner_size() the object holds derived images; giving it only one
+  //! pool image would make a state that a freshly configured object cannot be given)
+  void set_pool_images()
+  {
+    S.sim->set_activity_image_sptr(S.act[st.act % 2]);
+    S.sim->set_density_image_sptr(S.att[st.sc_att % 2]); // drops the scatter-point image
+    st.sc_down = -1;
+    sc_apply_scatter_point_image(S, *S.sim, st);
+  }
+  void exec(int code, int a, int b, std::vector<double>& out) override
+  {
+    exec_step(code, a, b);
+    if ((flags(code) & F_RESULT) || with_process(a, b))
+      run_scatter(*S.sim, out);
+  }
+  void exec_step(int code, int a, int b)
   {
     switch (code)
       {
       case PROCESS:
       case PROCESS2:
-        run_scatter(*S.sim, out);
+      case PROCESS3:
         break;
       case TOGGLE_CACHE:
         // removes both caches.  The cache arrays are only allocated by set_up() (initialise_cache_for_...), and set_use_cache()
@@ -1220,7 +1653,58 @@ struct FamScatter : Family
         break;
       case SET_ACT:
         st.act = a % 2;
-        S.sim->set_activity_image_sptr(S.act[st.act]);
+        if (st.sc_down >= 0)
+          set_pool_images();
+        else
+          S.sim->set_activity_image_sptr(S.act[st.act]); // the attenuation caches stay
+        do_set_up();
+        break;
+      case TMPL_AGAIN: // next frame / gate: the same template is given again
+        sc_apply_template(S, *S.sim, st.sc_tmpl);
+        do_set_up();
+        break;
+      case TMPL_OTHER:
+        st.sc_tmpl = a % 4;
+        sc_apply_template(S, *S.sim, st.sc_tmpl);
+        do_set_up();
+        break;
+      case SET_EXAM:
+        st.sc_exam = a % 2;
+        if (b % 2)
+          S.sim->set_exam_info_sptr(S.exams[st.sc_exam]);
+        else
+          S.sim->set_exam_info(*S.exams[st.sc_exam]);
+        do_set_up();
+        break;
+      case SET_ATT:
+        st.sc_att = a % 2;
+        set_pool_images();
+        do_set_up();
+        break;
+      case SET_SP:
+        st.sc_sp_kind = a % 2;
+        st.sc_sp_a = b % 18;
+        sc_apply_scatter_point_image(S, *S.sim, st);
+        do_set_up();
+        break;
+      case DOWNSAMPLE_IMAGES:
+        // needs pool images with the axial extent of the template-sized image (check_z_to_middle_consistent), else plain set_up
+        if (S.len_match)
+          {
+            S.sim->set_activity_image_sptr(S.act[st.act % 2]);
+            S.sim->set_density_image_sptr(S.att[st.sc_att % 2]);
+            if (S.sim->downsample_images_to_scanner_size() != Succeeded::yes)
+              throw std::runtime_error("ScatterSimulation::downsample_images_to_scanner_size returned Succeeded::no");
+            st.sc_down = st.sc_tmpl;
+            sc_apply_scatter_point_image(S, *S.sim, st);
+          }
+        do_set_up();
+        break;
+      case SET_THR:
+        // only BEFORE the scatter points are sampled: the setter is followed by a call that samples them again
+        st.sc_thr = a % 3;
+        S.sim->set_attenuation_threshold(SC_THRESHOLDS[st.sc_thr]);
+        sc_apply_scatter_point_image(S, *S.sim, st);
         do_set_up();
         break;
       default:
@@ -1228,6 +1712,23 @@ struct FamScatter : Family
       }
   }
 };
+
+void
+run_scatter_frames(const json& c, std::vector<double>& out)
+{
+  FamScatter fam(c, nullptr);
+  fam.exec_step(FamScatter::SET_UP, 0, 0);
+  fam.exec(FamScatter::PROCESS, 0, 0, out);
+  if (c["scat"].contains("frames"))
+    for (const json& f : c["scat"]["frames"])
+      {
+        if (!f.is_array() || f.size() < 3)
+          continue;
+        const int code = int(std::labs(f[0].get<long>()) % FamScatter::N);
+        fam.exec_step(code, int(std::labs(f[1].get<long>()) % 1000), int(std::labs(f[2].get<long>()) % 1000));
+        fam.exec(FamScatter::PROCESS, 0, 0, out);
+      }
+}
 
 std::unique_ptr<Family>
 make_family(const json& c, const CaseDir& dir, const std::string& tag, const Settings* o = nullptr)
@@ -1239,7 +1740,7 @@ make_family(const json& c, const CaseDir& dir, const std::string& tag, const Set
     case 1:
       return std::unique_ptr<Family>(new FamObjective(c, dir.sub(tag), o));
     case 2:
-      return std::unique_ptr<Family>(new FamTables(c));
+      return std::unique_ptr<Family>(new FamTables(c, o));
     case 3:
       return std::unique_ptr<Family>(new FamListMode(c, dir.sub(tag), dir.sub(tag + "_lmcache"), o));
     default:
@@ -1293,7 +1794,7 @@ decode_steps(const json& c, const Family& fam)
       Step s;
       s.T = int(std::max(1L, std::min(64L, std::labs(o[0].get<long>()))));
       s.via = int(std::labs(o[1].get<long>()) % 3);
-      s.code = int(std::labs(o[2].get<long>()) % fam.num_codes());
+      s.code = fam.decode(std::labs(o[2].get<long>()) % 1000);
       s.a = int(std::labs(o[3].get<long>()) % 1000);
       s.b = int(std::labs(o[4].get<long>()) % 1000);
       s.inserted = false;
@@ -1392,7 +1893,10 @@ run_history(const json& c, Family& fam, const std::vector<Step>& steps, bool sin
           const int fl = fam.flags(s.code);
           std::vector<double> out;
           if (!single)
-            perturb_on(c, pseed + uint64_t(k) * 7919ULL);
+            {
+              stats().count(cat("step: ", fam.name(s.code)));
+              perturb_on(c, pseed + uint64_t(k) * 7919ULL);
+            }
           fam.exec(s.code, s.a, s.b, out);
           perturb_off();
           if (!single)
@@ -1419,7 +1923,7 @@ run_history(const json& c, Family& fam, const std::vector<Step>& steps, bool sin
                 ++R.thread_changes_up;
               prev = current_threads();
             }
-          if (fl & F_RESULT)
+          if (!out.empty()) // every F_RESULT operation, and the setter steps of the scatter family that end with process_data
             R.records.push_back(Record{ k, s.code, current_threads(), s.a, s.b, fam.settings(), std::move(out) });
         }
     }
@@ -1540,7 +2044,7 @@ check_history_here(const json& c)
           std::unique_ptr<Family> fresh = make_family(c, dir, "f", &last.st);
           fresh->exec(fresh->setup_code(), 0, 0, out);
           out.clear();
-          fresh->exec(last.code, last.a, last.b, out);
+          fresh->exec(fresh->result_code(last.code), last.a, last.b, out);
         }
       catch (const stir_verif::AssertionFailure&)
         {
@@ -1723,6 +2227,13 @@ check_fresh(const json& c)
   if (multi_site)
     stats().cls("site hit by >=2 threads");
   stats().cls(cat("workload ", workload));
+  if (workload == 8 && c["scat"].contains("frames") && !c["scat"]["frames"].empty())
+    {
+      stats().cls("workload 8 with next-frame steps on the same object");
+      for (const json& f : c["scat"]["frames"])
+        if (f.is_array() && f.size() >= 3)
+          stats().count(cat("frame step: ", FamScatter::step_name(int(std::labs(f[0].get<long>()) % FamScatter::N))));
+    }
   stats().cls(cat("threads ", threads <= 2 ? "2" : threads <= 4 ? "3-4" : threads <= 8 ? "5-8" : "9-16+"));
   if (c.value("file_data", 0) != 0 && workload_family(workload) <= 1 && workload != 0)
     stats().cls(cat("file-backed projection data, layout ", c.value("file_data", 0)));
@@ -1830,7 +2341,7 @@ gen(Src& s, int size)
   c["image"] = vg::gen_image(s, io);
   c["dseed"] = s.seed64();
   c["pseed"] = s.seed64();
-  c["workload"] = int(s.pick(std::vector<int>{ 0, 1, 1, 2, 3, 3, 4, 5, 5, 6, 7, 7, 8 }));
+  c["workload"] = int(s.pick(std::vector<int>{ 0, 1, 1, 2, 3, 3, 4, 5, 5, 6, 7, 7, 8, 8 }));
   c["threads"] = int(s.pick(std::vector<int>{ 2, 2, 3, 4, 4, 7, 8, 12, 16, 24 }));
   c["reps"] = int(s.range(2, 6));
   c["cache"] = int(s.range(0, 2));
@@ -1862,6 +2373,20 @@ gen(Src& s, int size)
                     { "len", s.pick(std::vector<double>{ 0.5, 0.8, 1. }) }, { "p_zero", s.pick(std::vector<double>{ 0., 0.3 }) },
                     { "low", s.pick(std::vector<double>{ 350., 425., 450. }) }, { "high", s.pick(std::vector<double>{ 600., 650. }) } };
       c["reps"] = int(s.range(2, 3));
+      // pool images with the axial extent of a template-sized image: downsample_images_to_scanner_size() can be mixed with them
+      c["scat"]["len_match"] = s.coin();
+      // fresh-object cases: "next frame / gate" steps on the same object, each followed by process_data (see run_scatter_frames)
+      json frames = json::array();
+      if (s.chance(2, 3))
+        {
+          typedef FamScatter F;
+          const int n = int(s.range(1, 2));
+          for (int k = 0; k < n; ++k)
+            frames.push_back(json::array({ int(s.pick(std::vector<int>{ F::TMPL_AGAIN, F::TMPL_AGAIN, F::TMPL_AGAIN, F::TMPL_OTHER, F::SET_EXAM, F::SET_ACT, F::SET_ACT,
+                                                                        F::SET_ATT, F::SET_SP, F::DOWNSAMPLE_IMAGES, F::SET_THR, F::TOGGLE_CACHE, F::SET_UP })),
+                                           int(s.range(0, 999)), int(s.range(0, 999)) }));
+        }
+      c["scat"]["frames"] = frames;
     }
   // (b) object-reuse history instead of fresh objects per repetition: 9 of 20 cases
   const bool hist = s.chance(9, 20);
@@ -1872,7 +2397,7 @@ gen(Src& s, int size)
       auto via = [&]() { return int(s.pick(std::vector<int>{ 0, 0, 0, 1, 1, 1, 1, 2 })); };
       c["init"] = json::array({ s.pick(counts), via() });
       json ops = json::array();
-      const int len = int(s.range(3, workload == 8 ? 5 : 4 + size / 12));
+      const int len = int(s.range(3, workload == 8 ? 6 : 4 + size / 12));
       for (int k = 0; k < len; ++k)
         ops.push_back(json::array({ s.pick(counts), via(), int(s.range(0, 999)), int(s.range(0, 999)), int(s.range(0, 999)) }));
       c["ops"] = ops;
@@ -1950,6 +2475,51 @@ fixed_cases(int)
   // list-mode objective function and the lazily built tables
   add(7, { 8, 1 }, { { 8, 2, L::GRADPLUS, 0, 0 }, { 2, 0, L::GRADPLUS, 1, 1 }, { 2, 2, L::HESS, 0, 0 }, { 16, 1, L::VALUE, 0, 0 }, { 3, 0, L::SET_UP, 0, 0 }, { 3, 2, L::GRAD, 0, 2 } }, 1, 0, 0);
   add(6, { 1, 0 }, { { 16, 0, FamTables::QUERY, 0, 0 }, { 16, 2, FamTables::REARM, 0, 0 }, { 3, 1, FamTables::QUERY_TABLES_FIRST, 0, 0 } }, 0, 0, 0);
+  // lazy tables: other re-arming setters, look-ups on a clone, other ring spacing, fewer segments
+  add(6, { 8, 0 }, { { 8, 2, FamTables::QUERY, 0, 0 }, { 8, 2, FamTables::REARM_SAME_VALUE, 1, 1 }, { 12, 0, FamTables::QUERY, 0, 0 }, { 12, 2, FamTables::TOGGLE_SPACING, 0, 0 },
+                     { 5, 1, FamTables::QUERY_TABLES_FIRST, 0, 0 }, { 5, 2, FamTables::COPY, 0, 0 }, { 5, 2, FamTables::REARM_SAME_VALUE, 2, 0 }, { 16, 0, FamTables::QUERY, 0, 0 },
+                     { 16, 2, FamTables::REDUCE_SEGMENTS, 0, 0 }, { 7, 0, FamTables::QUERY_TABLES_FIRST, 0, 0 } }, 0, 0, 0);
+  // projector pair: set_up for another image geometry and back, other symmetry switches, with thread counts up and down
+  add(1, { 8, 0 }, { { 8, 2, P::BACK, 0, 0 }, { 8, 2, P::SET_GEOM, 1, 0 }, { 8, 2, P::BACK, 0, 0 }, { 3, 0, P::FWD, 1, 0 }, { 12, 1, P::SET_GEOM, 0, 0 }, { 12, 2, P::BACK, 0, 0 },
+                     { 12, 2, P::SET_SYM, 6, 0 }, { 4, 0, P::BACK, 0, 16 }, { 4, 2, P::SET_SYM, 1, 0 }, { 16, 0, P::FWD, 0, 0 } }, 0, 0, 0);
+  // objective function: the same data / pair again, additive and normalisation off and on, other target geometry
+  add(3, { 8, 1 }, { { 8, 2, O::GRAD, 0, 0 }, { 8, 2, O::SET_DATA, 1, 0 }, { 3, 0, O::GRADPLUS, 0, 1 }, { 3, 2, O::SET_ADD, 2, 0 }, { 12, 0, O::HESS, 1, 0 }, { 12, 2, O::SET_GEOM, 1, 0 },
+                     { 5, 0, O::GRAD, 0, 0 }, { 5, 2, O::SET_NORM, 2, 0 }, { 16, 1, O::VALUE, 0, 0 }, { 16, 2, O::SET_DATA, 0, 0 }, { 2, 0, O::HESS_APPROX, 0, 1 } }, 2, 0, 0);
+  // list-mode objective function: other batch sizes, cache files re-used, other number of subsets
+  add(7, { 8, 1 }, { { 8, 2, L::GRADPLUS, 0, 0 }, { 8, 2, L::SET_CACHE_SIZE, 2, 0 }, { 3, 0, L::GRAD, 0, 0 }, { 12, 0, L::REUSE_CACHE, 0, 0 }, { 12, 2, L::GRADPLUS, 1, 0 },
+                     { 12, 2, L::SET_CACHE_SIZE, 4, 0 }, { 5, 0, L::REUSE_CACHE, 0, 0 }, { 5, 2, L::HESS, 0, 0 }, { 16, 1, L::SET_NSUB, 1, 0 }, { 16, 2, L::VALUE, 0, 1 } }, 3, 0, 0);
+  // ---- scatter simulation: the next frame / gate on the same object
+  {
+    json sc = base;
+    sc["workload"] = 8;
+    sc["scanner"] = json::parse(R"({"type": -1, "ndet": 10, "rings": 2, "tr_cryst_per_block": 5, "tr_blocks_per_bucket": 1, "ax_cryst_per_block": 2,
+      "ax_blocks_per_bucket": 1, "singles_units": 0, "max_tang": 9, "radius": 31.75, "doi": 0.0, "ring_spacing": 20.0, "bin_size": 10.0, "tilt": 0.0,
+      "tof_poss": 0, "geometry": "Cylindrical"})");
+    sc["pdi"] = json::parse(R"({"span": 1, "max_delta": 1, "views": 5, "tang": 7, "arccorr": false, "tof_mash": 0, "trim": {}})");
+    sc["scat"] = json::parse(R"({"nx": 4, "nz": 3, "extent": 0.6, "len": 0.8, "p_zero": 0.0, "low": 425.0, "high": 650.0, "len_match": true, "frames": []})");
+    sc["file_data"] = 0;
+    typedef FamScatter F;
+    auto add_sc = [&](json init, json ops) {
+      json c = sc;
+      c["init"] = init;
+      c["ops"] = ops;
+      v.push_back(c);
+    };
+    // the SAME template again (three times, thread counts up and down), other energy window, other activity image:
+    // the attenuation cache may be kept only as long as the detector numbering is
+    add_sc({ 8, 0 }, { { 8, 2, F::PROCESS, 0, 0 }, { 8, 2, F::TMPL_AGAIN, 1, 0 }, { 3, 0, F::TMPL_AGAIN, 1, 0 }, { 16, 1, F::SET_EXAM, 1, 0 }, { 16, 2, F::TMPL_AGAIN, 1, 0 },
+                       { 2, 0, F::SET_ACT, 1, 0 }, { 12, 0, F::TMPL_AGAIN, 0, 0 }, { 12, 2, F::SET_UP, 0, 1 } });
+    // other templates (same detectors / other scanner / down-sampled scanner), images, scatter points, threshold
+    add_sc({ 4, 1 }, { { 4, 2, F::PROCESS, 0, 0 }, { 12, 0, F::TMPL_OTHER, 1, 0 }, { 12, 2, F::SET_ATT, 1, 0 }, { 5, 0, F::TMPL_OTHER, 3, 2 }, { 5, 2, F::DOWNSAMPLE_IMAGES, 1, 0 },
+                       { 16, 0, F::SET_SP, 1, 4 }, { 16, 2, F::TMPL_OTHER, 2, 3 }, { 3, 1, F::SET_THR, 1, 0 }, { 8, 0, F::SET_ACT, 0, 1 }, { 8, 2, F::TMPL_AGAIN, 1, 0 } });
+    // fresh objects in every repetition: two more frames on the object
+    json f = sc;
+    f["hist"] = 0;
+    f["threads"] = 8;
+    f["reps"] = 3;
+    f["scat"]["frames"] = json::array({ json::array({ int(F::TMPL_AGAIN), 0, 0 }), json::array({ int(F::SET_ACT), 1, 0 }), json::array({ int(F::TMPL_AGAIN), 0, 0 }) });
+    v.push_back(f);
+  }
   return v;
 }
 
